@@ -352,6 +352,11 @@ var exporterPool = []net.IP{
 	net.IPv4(0, 0, 0, 0).To4(),
 	net.IPv4(127, 0, 0, 1).To16(), net.IPv4(10, 1, 2, 4).To16(), net.IPv4(198, 51, 100, 7).To16(),
 	net.ParseIP("::1"), net.ParseIP("2001:db8::1"), net.ParseIP("fe80::a:b:c:d"), net.ParseIP("2001:db8:ffff:ffff:ffff:ffff:ffff:ffff"),
+	// relatives of the IPv4 addresses above: IPv6 addresses that begin with the same four octets (rest zero),
+	// IPv4-compatible and NAT64 forms, the unspecified address — anything that shortens, pads or re-renders an
+	// address confuses some pair of these
+	{10, 1, 2, 3, 0, 0, 0, 0, 0, 0, 0, 0, 0, 0, 0, 0}, {127, 0, 0, 1, 0, 0, 0, 0, 0, 0, 0, 0, 0, 0, 0, 0},
+	net.ParseIP("::"), net.ParseIP("::10.1.2.3"), net.ParseIP("64:ff9b::10.1.2.3"), net.ParseIP("::ffff:0:0"),
 }
 
 // GenExporter draws an exporter address: 4-octet IPv4, 16-octet IPv4-mapped or IPv6.
